@@ -179,6 +179,23 @@ def main():
         chk.traces += len(recs)
         chk.samples += recs[5:7]
     random_systems(chk, 300 if chk.thorough else 40, chk.seed)
+    # the solvers inside real solves: every factorisation / solve of a sweep is a `Lin` event whose returned vector carries an
+    # independent residual class (small double-precision systems of condition <= 1e6); families with exactly singular and
+    # indefinite Newton matrices under all three linear solvers
+    from harness import gen
+    from harness.checks.common import family_spec
+    from pygradflow.params import LinearSolverType, StepSolverType
+    rng = np.random.default_rng(chk.seed + 17)
+    gs = []
+    for i in range(160 if chk.thorough else 24):
+        ls = [LinearSolverType.GMRES, LinearSolverType.LU, LinearSolverType.MINRES][i % 3]
+        ss = StepSolverType.Symmetric if ls == LinearSolverType.MINRES else gen.STEPSOLVERS[(i // 3) % 4]
+        lam = float(2.0 ** int(rng.integers(-2, 3)))
+        pk = gen.random_params(rng, iteration_limit=25, linear_solver_type=ls, step_solver_type=ss, lamb_init=lam,
+                               report_rcond=bool(i % 4 == 1))
+        ps = ("saddle", int(rng.integers(0, 2 ** 31)), int(rng.integers(2, 4)), lam) if i % 2 == 0 else family_spec(i, rng)
+        gs.append({"tag": "C17.insolve", "runs": [{"prob": ps, "params": pk}]})
+    chk.tv(gs, "C17 solvers inside solves")
     chk.assumptions += ["small cases: returned vectors are shipped as round(x*2^16) and the residual is computed by TLC in integers; tolerance "
                         "4 units (rounding) + 8 units for iterative solvers", "random larger systems (n<40, condition <= 1e4) are checked by a "
                         "float oracle: exploration-grade, as stated in DESIGN 6 C17"]
